@@ -319,6 +319,8 @@ def _finalize(ctx, prog):
             if t.op == "cmp" and is_call_to(t.args[1], "builtins.len") and \
                     tm.is_const(t.args[2], 0):
                 return False          # values given
+            if t is vals:
+                return True           # values given (truthiness spelling)
             return None
         return Interp(prog, assume=assume).run(f)
     r = run(True, False)
